@@ -741,7 +741,19 @@ def r5_tabulated_writers(ctx) -> None:
         r.ok("C06.R5", g.qual, f"{len(cases)} cases (item kind x linking x count): the plain form expresses the linking or fails", g.loc)
     # conditions come from the parsed conditions (the objects condition transformations change)
     h = prog.func("sigma.rule.detection.SigmaDetections.to_dict")
-    src = unparse(h.node)
-    if "self.parsed_condition" in src and ".condition" in src:
-        r.ok("C06.R5", h.qual, "conditions are written from parsed_condition", h.loc)
+    import types as _types5
+    from ..tabulate import Proxy as _P5, call_method as _cm5, Raised as _R5
+    SD5 = "sigma.rule.detection.SigmaDetections"
+    outs5 = {}
+    for n5 in (1, 2):
+        me5 = _P5(prog, SD5, {}, {"detections": {}, "condition": ["as loaded"] * n5, "parsed_condition": [_types5.SimpleNamespace(condition=f"live {i}") for i in range(n5)], "source": None}, interp_kwargs={"max_steps": 4000})
+        try:
+            d5 = _cm5(prog, SD5, "to_dict", me5, {}, interp_kwargs={"max_steps": 4000})
+            outs5[n5] = d5.get("condition") if isinstance(d5, dict) else repr(d5)
+        except _R5 as ex:
+            outs5[n5] = f"raises {ex}"
+    if outs5 == {1: "live 0", 2: ["live 0", "live 1"]}:
+        r.ok("C06.R5", h.qual, "conditions are written from parsed_condition (one as text, several as a list; interpreted)", h.loc)
+    else:
+        r.violation("C06.R5", h.qual, "conditions = [cond.condition for cond in self.parsed_condition]", f"the written conditions are not those of the parsed conditions (the objects condition transformations change): {outs5}", h.loc)
     r.floor("C06.R5", 2)
